@@ -126,8 +126,10 @@ def run_plan(plan):
   sim.recv_mode = cfg.get("recv_mode", "all")
   sim.max_delay_ticks = 8
   res = {"verdict": "ok"}
+  known = load_known(PROP)
+  hit = []
   try:
-    _drive(sim, plan)
+    _drive(sim, plan, known, hit)
   except Violation as v:
     res.update(verdict="violation", vclass=v.vclass, detail=v.detail)
   except S.SimAbort as a:
@@ -138,7 +140,7 @@ def run_plan(plan):
   res["digest"] = sim.digest()
   res["sim_time"] = sim.now - S.T0
   res["steps"] = len(plan["steps"])
-  res["known"] = []
+  res["known"] = sorted(set(hit))
   res["stats"] = dict(sim.stats)
   res["probes"] = dict(sim.probes)
   p = sim.probes
@@ -170,7 +172,7 @@ def _tag_of(raw):
   return struct.unpack_from("!L", raw, i - 4)[0]
 
 
-def _drive(sim, plan):
+def _drive(sim, plan, known, hit):
   import pox.forwarding.l2_learning as L2
   cfg = plan["cfg"]
   net = NetWorld(sim, cfg)
@@ -209,13 +211,30 @@ def _drive(sim, plan):
   done_pi = {i: 0 for i in range(1, nsw + 1)}
   expected = {}     # (sw, tag) -> ("exact", set) | ("subset", set)
   tainted = set()   # tags whose processing overlapped a control reset
+  stale = []        # (sw, tag, dst, port used, most recent port, why)
   last_quiet = [0]
   checked = [0]
   all_ports = {i: set(range(1, cfg["nports"][str(i)] + 1))
                for i in range(1, nsw + 1)}
 
+  def sightings():
+    """per switch and source address: (seq, port) of every arrival that was
+    seen by the controller (packet-in) or forwarded by a cached flow --
+    frames silently dropped by a flow are not counted"""
+    pi_tags = {}
+    for i, ns in net.switches.items():
+      pi_tags[i] = set(_tag_of(r) for _, _, r, _, _ in ns.packet_ins)
+    fwd = set((d, _tag_of(r)) for _, _, d, _, r in net.egress)
+    out = {}
+    for seq, t, dpid, port, raw in net.arrivals:
+      tg = _tag_of(raw)
+      if tg in pi_tags.get(dpid, ()) or (dpid, tg) in fwd:
+        out.setdefault((dpid, raw[6:12]), []).append((seq, port))
+    return out
+
   def process_packet_ins():
     """advance the per-switch model over packet-ins sent so far"""
+    sight = None
     for i, ns in net.switches.items():
       pis = ns.packet_ins
       while done_pi[i] < len(pis):
@@ -247,10 +266,38 @@ def _drive(sim, plan):
           else:
             sim.probes["unicast_known"] += 1
             exp = {p}
+          # "...to exactly the most recent such port whenever no older
+          # cached flow for that traffic is still installed": this frame has
+          # no cached flow (it caused a packet-in), so p must be where dst
+          # was most recently seen as a source
+          if sight is None:
+            sight = sightings()
+          prior = [pp for sq, pp in sight.get((i, dst), ()) if sq < seq]
+          if prior and prior[-1] != p and t not in tainted:
+            if prior[-1] in ever[i].get(dst, ()):
+              kf = "C11-stale-port-after-host-returns"
+              if kf in known:
+                hit.append(kf)
+                sim.probes["known_" + kf] += 1
+              else:
+                stale.append((i, t, dst, p, prior[-1], "returned"))
+            else:
+              stale.append((i, t, dst, p, prior[-1], "never-learned"))
         expected[(i, t)] = ("exact", exp, in_port)
 
   def check_all(ctx):
     process_packet_ins()
+    for i, t, dst, p, recent, why in stale:
+      if t in tainted:
+        continue
+      raise Violation("stale-port/" + why, "%s: switch %d sent frame tag %d "
+                      "(no cached flow: it caused a packet-in) for %s to port "
+                      "%d, but that address was most recently seen as a "
+                      "source on port %d%s"
+                      % (ctx, i, t, dst.hex(), p, recent,
+                         "" if why == "returned" else
+                         " -- a port the controller never learned it on, so "
+                         "a cached flow forwarded its frames from there"))
     # group emissions and arrivals by (switch, tag)
     em = {}
     for seq, t, dpid, port, raw in net.egress:
